@@ -19,6 +19,7 @@ var rules = map[string]string{
 	"C14": caseText + "non-trivial = >= 1 release of >= 2 packets decoded by the independent GTP-U reader",
 	"C15": caseText + "non-trivial = >= 2 ticks judged AND >= 1 period group released",
 	"C17": caseText + "non-trivial = Stop() was called while receive/transmit transactions (timers) were pending; runs execute under the race detector",
+	"C20": "one case = one simulated start-up: a configuration file generated from a valid one by 0-3 in-domain variations and, in 2 of 5 runs, one or two faults from a catalogue of single-field faults that are invalid beyond doubt (absent, empty, mistyped, out of range), read through pkg/factory (node-id resolution through the simulated resolver); if accepted, the gtp5g driver is started against the simulated kernel with a generated module version (around both bounds and random x.y.z), optionally a failing start-up request (module not loaded, version query failing, link device not creatable) and a scheduling choice at mux.Close, then serves one heartbeat and is shut down; distinct = distinct plan; non-trivial = the configuration was rejected as expected, or a start-up was attempted",
 	"C18": caseText + "non-trivial = the run ended with the progress probe answered after bursts (queues shrunk by knobs in most runs)",
 }
 
@@ -41,6 +42,9 @@ func assumptions(p string) []string {
 		a = append(a, "race freedom is judged by the Go race detector on the schedules the simulator produced (lock-step); internal state is never read by the harness in these runs")
 	case "C18":
 		a = append(a, "most runs shrink the queue capacities through build-overlay knobs; both known wedges are also witnessed at the shipped capacities")
+	case "C20":
+		a = append(a, "the configuration half is plain seeded input generation (a pure function of the file): only unambiguous faults and in-domain variations are generated, strings whose validity the statement leaves open (odd host names, empty lists, unknown keys) are not; gtp5g version strings are numeric x.y.z",
+			"start-up runs execute under the race detector")
 	case "C14":
 		a = append(a, "only the header form the UPF can emit (flags 0x34, PDU type 0) is reachable; the pure encoder grid over PDU types is not claimed")
 	}
